@@ -52,7 +52,7 @@ class Translator:
         self.ctx, self.mod = L.parse_ir(path)
         self.td = L.GetModuleDataLayout(self.mod)
         self.entries = entries
-        self.drop = set(drop)
+        self.drop = [re.compile(x) for x in drop]
         self.noop = [re.compile(x) for x in noop]
         self.nooped = []
         self.talloc = {}
@@ -78,6 +78,7 @@ class Translator:
         self.strings = {}
         self.stats = {"functions": 0, "instructions": 0}
         self.with_ctors = True
+        self.extra_roots = []
 
     # ------------------------------------------------------------------ types
     def ctype(self, ty):
@@ -252,7 +253,7 @@ class Translator:
         nm = L.name_of(g)
         k = L.GetValueKind(g)
         if k == L.VK_Function:
-            defined = (not L.IsDeclaration(g)) and nm not in self.drop
+            defined = (not L.IsDeclaration(g)) and not any(r.search(nm) for r in self.drop)
             pref = "F_" if defined else "X_"
         else:
             pref = "G_"
@@ -267,7 +268,7 @@ class Translator:
         return c
 
     def is_defined_fn(self, f):
-        return (not L.IsDeclaration(f)) and L.name_of(f) not in self.drop
+        return (not L.IsDeclaration(f)) and not any(r.search(L.name_of(f)) for r in self.drop)
 
     def scan_const(self, v, work):
         k = L.GetValueKind(v)
@@ -314,6 +315,13 @@ class Translator:
             self.seen.add(f)
             work.append(f)
         for f in self.ctors:
+            if f not in self.seen:
+                self.seen.add(f)
+                work.append(f)
+        for e in self.extra_roots:
+            f = L.GetNamedFunction(self.mod, e.encode())
+            if not f:
+                raise SystemExit("ir2c: root %s not found" % e)
             if f not in self.seen:
                 self.seen.add(f)
                 work.append(f)
@@ -1345,7 +1353,15 @@ class Translator:
                     for i in range(nc):
                         cl = L.GetClause(ins, i)
                         if L.GetTypeKind(L.TypeOf(cl)) == L.TK_Array:
-                            raise Unsupported("landingpad filter clause")
+                            # exception-specification filter: thrown type must be one of the listed types,
+                            # otherwise the (negative) filter selector is delivered
+                            allowed = []
+                            if L.GetValueKind(cl) == L.VK_ConstantArray:
+                                allowed = [self.ti_id(o) for o in L.operands(cl)]
+                            cond = " || ".join("verif_isa(t, %dU)" % a for a in allowed) or "0"
+                            s += "%sif (!(%s)) sel = (uint32_t)-%d; " % ("" if first else "else ", cond, i + 1)
+                            first = False
+                            continue
                         cid = self.ti_id(cl)
                         if cid == 0:
                             break  # catch-all: selector irrelevant
@@ -1506,12 +1522,14 @@ def main():
     ap.add_argument("--drop", action="append", default=[], help="treat this defined function as external (X_name)")
     ap.add_argument("--watch", action="store_true")
     ap.add_argument("--no-ctors", action="store_true")
+    ap.add_argument("--root", action="append", default=[], help="additional function to translate (called only from C models)")
     ap.add_argument("--noop", action="append", default=[], help="regex: matching defined functions get an empty body (listed in info)")
     ap.add_argument("--cut", action="append", default=[], help="regex: matching functions become a bound assertion (paths through them are outside the bound; reaching one is reported like an unwinding assertion)")
     ap.add_argument("--info", help="write JSON with functions encoded / externs / unsupported")
     a = ap.parse_args()
     t = Translator(a.ir, a.entry, drop=a.drop, watch=a.watch, noop=a.noop)
     t.with_ctors = not a.no_ctors
+    t.extra_roots = a.root
     t.cut = [re.compile(x) for x in a.cut]
     text = t.translate()
     with open(a.out, "w") as f:
